@@ -30,6 +30,9 @@ CHECKS["C07"] = dict(technique="property-based testing (rapid): model-based (mat
 CHECKS["C19"] = dict(technique="property-based testing (rapid): stateful model-based testing of the three XOFs against a single-shot golang.org/x/crypto reference; metamorphic tests of random.New; exhaustive bias enumeration for random.Int",
   text="A state machine over Write/Read/XORKeyStream/Reseed/Clone/Reset on a growing set of XOF instances compares every output with a from-scratch single-shot reference on x/crypto (chunk independence, determinism, XOR = Read, clone tracking, reseed, reset). random.New is checked metamorphically (deterministic, consumed bytes only, every reader matters, survives failing readers); random.Bits/Int for range, exactness and dependence on consumed bytes; modulo bias is decided exhaustively over all 1-/2-byte stream prefixes for a list of moduli. Exploration, with the bias sub-space enumerated completely.",
   note="Trusted: golang.org/x/crypto blake2b/blake2s XOF and SHAKE256; rapid. Documented panics (Write after Read, all readers failing, Bits(0,exact)) are outside the generated domain.", ref="4/C19")
+CHECKS["C17"] = dict(technique="property-based testing (rapid): adversarial-stream generators for Pick/Embed, model membership, replay-of-consumed-bytes determinism, Embed/Data round trip, differential hash-to-curve (RFC 9380 math/big model for edwards25519, cross-back-end for BLS12-381)",
+  text="Generated (group, stream incl. retry-forcing prefixes, data lengths around EmbedLen, messages, DSTs up to 300 bytes): produced points are group members in the library and in the math/big models, are functions of exactly the consumed bytes / (message, DST), differ for different messages and tags, Embed/Data is lossless up to EmbedLen before and after encode/decode, Data never panics, the Ed25519 hash equals an RFC 9380 model validated on the RFC vectors, and BLS12-381 hashes agree across Kilic/CIRCL/gnark. Exploration only.",
+  note="Trusted: math/big curve and RFC 9380 models (validated on the RFC's own vectors at start-up), rapid. Empty DST is outside the domain (RFC 9380 3.1).", ref="4/C17")
 NOT_YET = {}
 
 def main():
